@@ -4,7 +4,8 @@
 //! case line:  ctl.s|ctl.c g=<0|1> cr=<uni credits at start> b=<u|n default write budget> ev=<e1,e2,...>
 //! events are those of `simquic::apply_event` plus `P` = poll the driver task once (only explicit polls,
 //! no wakers: the interleaving of arrivals and polls is exactly the one written in the case).
-//! (a server's accept() is called again at the next poll after it answered None)
+//! (a server's accept() is called again at the next poll after it answered None; a client is driven through
+//! `poll_close` when the number of events of the case is odd and through the documented `wait_idle().await` when even)
 //! result:  <pending | ok none | err c:<code>:<variant>> at=<poll number at which that result first appeared|->
 //!          ph=<build|run> close=<first close code|-> stops=<id:code;...|-> opened=<n> fins=<n>
 //!          set=<dg><ec><wt>|- closing=<0|1|-> req=<closing|ok|pending|-|err..>
@@ -68,6 +69,7 @@ fn run_case(ws: &[&str]) -> String {
     let sender: Rc<RefCell<Option<CliSend>>> = Rc::new(RefCell::new(None));
     let status: Rc<RefCell<String>> = Rc::new(RefCell::new("pending".to_string()));
 
+    let via_wait_idle = evs.len() % 2 == 0;
     let t = if server {
         let (w2, sh, keep, st) = (w.clone(), shared.clone(), keep_s.clone(), status.clone());
         ex.spawn(async move {
@@ -105,7 +107,11 @@ fn run_case(ws: &[&str]) -> String {
             };
             *sh.borrow_mut() = Some(conn.inner.shared.clone());
             *snd.borrow_mut() = Some(sr);
-            let e = futures_util::future::poll_fn(|cx| conn.poll_close(cx)).await;
+            let e = if via_wait_idle {
+                conn.wait_idle().await
+            } else {
+                futures_util::future::poll_fn(|cx| conn.poll_close(cx)).await
+            };
             *keep.borrow_mut() = Some(conn);
             format!("err {}", conn_err(&e))
         })
